@@ -177,4 +177,28 @@ example : (run demo [0, 1, 0, 0, 0, 0, 1, 1, 1, 1, 1, 1, 1, 1]).cur 0 = ⟨[⟨1
 
 example : ((run demo [0, 1, 0, 0, 0, 0, 1, 1, 1, 1, 1, 1, 1, 1]).h 1).done.map (·.2.isSome) = [false, true] := by rfl
 
+/-! ## known finding: concurrent imports of one ring -/
+
+/-- two handles, both with the snapshot of the freshly created empty ring, each importing its own key list -/
+def importRace : St where
+  cur := fun _ => ⟨[], noKey⟩
+  new := fun _ => none
+  writer := none
+  readers := []
+  h := fun i => ⟨0, ⟨[], noKey⟩, [], if i = 0 then [.importKeys [⟨1, 1, 10⟩] noKey] else if i = 1 then [.importKeys [⟨1, 1, 11⟩] noKey] else [], [], .idle⟩
+  commits := []
+
+/-- **Known finding (C17, `import-race-lost-update`).** `txSetKeys` carries no optimistic check:
+when two handles import into the same ring at the same time both operations succeed and the key
+list of the first is overwritten – the keys of a *successful* import are gone. (Linearisability in
+the sense of `v2_linearizable` still holds – the stored ring is the replay of both commits – but
+sequentially the second import is refused with `ErrKeyRingExists`; the check that refuses it runs
+outside the lock that protects the write.) Replayed on the real key store by the harness
+(`mode:import-race`, every schedule). -/
+theorem import_race_counterexample :
+    let s := run importRace [0, 0, 0, 0, 0, 1, 1, 1, 1, 1]
+    (s.h 0).done.map (·.2.isSome) = [true] ∧ (s.h 1).done.map (·.2.isSome) = [true] ∧
+    s.cur 0 = ⟨[⟨1, 1, 11⟩], noKey⟩ := by
+  refine ⟨by rfl, by rfl, by rfl⟩
+
 end AcraModel.Props.C17
